@@ -164,6 +164,14 @@ func c03Case(c *core.Ctx, idx int) {
 		got.Elem().Set(model.DeepCopy(prior))
 		want := reflect.New(s2)
 		want.Elem().Set(model.DeepCopy(prior))
+		if j%2 == 1 {
+			// the target is being recycled: its slices were cut short where they are, the elements beyond
+			// the new length are still in their backing arrays
+			seed := rv.Uint64()
+			staleTails(got.Elem(), rand.New(rand.NewPCG(seed, 3)), 0)
+			staleTails(want.Elem(), rand.New(rand.NewPCG(seed, 3)), 0)
+			rec.Count("recycled_targets", 1)
+		}
 		rec.Eval(1)
 		h, _ := model.ShapeHash(v)
 		rec.NonTrivial(h ^ core.Hash64(tc.typ.String(), s2.String(), tc.name))
